@@ -43,7 +43,7 @@ func c14Jobs(tier string, seed int64) []string {
 	}
 	jobs = append(jobs, "trans:SSS", "trans:sSs")
 	// membership, min/max, order, switch
-	jobs = append(jobs, "member:I", "member:F", "member:S", "minmax:II", "minmax:IF", "minmax:FF",
+	jobs = append(jobs, "member:I", "member:F", "member:S", "member:FIII", "member:IFFF", "member:IIFI", "member:FIFI", "member:SIII", "member:ISSS", "member:IISI", "member:BIII", "member:IBII", "member:SFSS", "minmax:II", "minmax:IF", "minmax:FF",
 		"order:III", "order:IFI", "order:FFF", "switch:II", "switch:IF", "switch:SS", "switch:IS", "switch:BI")
 	_ = scal
 	return jobs
@@ -276,17 +276,35 @@ func c14Run(job string) {
 			sym.Assert(sym.Implies(sym.And(x, y), z), "lt-transitive")
 		}
 	case "member":
+		// kinds[0] is the kind of x, kinds[1..3] those of the elements (default: all like x)
+		ek := func(i int) byte {
+			if len(kinds) > i {
+				return kinds[i]
+			}
+			return kinds[0]
+		}
 		x := mk(fg, kinds[0], "x")
-		e0, e1, e2 := mk(fg, kinds[0], "e0"), mk(fg, kinds[0], "e1"), mk(fg, kinds[0], "e2")
+		e0, e1, e2 := mk(fg, ek(1), "e0"), mk(fg, ek(2), "e1"), mk(fg, ek(3), "e2")
 		r := eval(mustGen(fg, "x ~ [e0,e1,e2]", "x", "e0", "e1", "e2"), x, e0, e1, e2)
-		sym.Assert(r.ok(), "defined")
 		eq := mustGen(fg, "a=b", "a", "b")
-		q0, q1, q2 := eval(eq, e0, x), eval(eq, e1, x), eval(eq, e2, x)
-		if m, ok := boolOf(r); ok && q0.ok() && q1.ok() && q2.ok() {
-			b0, _ := boolOf(q0)
-			b1, _ := boolOf(q1)
-			b2, _ := boolOf(q2)
-			sym.Assert(sym.Iff(m, sym.Or(b0, sym.Or(b1, b2))), "member-iff-some-element-equal")
+		qs := []res{eval(eq, e0, x), eval(eq, e1, x), eval(eq, e2, x)}
+		comparable, some := true, false
+		for _, q := range qs {
+			if b, ok := boolOf(q); ok {
+				some = sym.Or(some, b)
+			} else {
+				comparable = false
+			}
+		}
+		if comparable {
+			sym.Assert(r.ok(), "defined")
+			if m, ok := boolOf(r); ok {
+				sym.Assert(sym.Iff(m, some), "member-iff-some-element-equal")
+			}
+		} else if m, ok := boolOf(r); ok {
+			// an element that cannot be compared with x: an error, or true because a comparable
+			// element equals x - never "false"
+			sym.Assert(sym.And(m, some), "member-incomparable-never-false")
 		}
 		r0 := eval(mustGen(fg, "x ~ []", "x"), x)
 		if m, ok := boolOf(r0); ok {
